@@ -61,6 +61,8 @@ def _present_vars(call):
 def judge(op: L.Op, call, sp=None):
     """Model-free verdict on one call. Returns (key, what, info); key None = property holds."""
     k, what, info = _judge(op, call, sp)
+    if k is not None and not k.startswith("untyped-") and op.name == "Scan" and any(a != 0 for a in call["attrs"].get("scan_input_axes", [])):
+        k += ":nonzero-scan-input-axes"  # (a family of its own: the constructor slices axis 0 whatever the attribute says)
     return k, " ".join(what.split()), info
 
 
@@ -206,7 +208,7 @@ def merge_calls(calls):
     return {"vars": vars_, "calls": out, "facets": ["earlier call of this process"] * (len(out) - 1) + ["failing call"]}
 
 
-_confirm_budget = {"single": 10, "pair": 12, "history": 14}
+_confirm_budget = {"single": 6, "pair": 6, "history": 8}  # per worker task
 
 
 def confirm(case, key, purpose="single") -> bool:
@@ -511,6 +513,7 @@ def sweep(ck, work, rng, stats, per_op, families):
             stats["skipped:" + call["skip"]] += 1
             return
         families[call["family"]] += 1
+        _trace({"op_key": op.key, "call": call})
         sp = L.run_spox(op, call)
         key, what, info = judge(op, call, sp)
         per_op[op.key][info["class"]] += 1
@@ -565,75 +568,259 @@ def sweep(ck, work, rng, stats, per_op, families):
 
 
 
-N_SLICES = 32  # fixed, so that the cases of a seed do not depend on the number of CPUs
+DATA_DEP = {"NonZero", "Unique", "Compress", "Where", "Reshape", "Expand", "Tile", "Range", "ConstantOfShape",
+            "Slice", "TopK", "Gather", "Pad", "Resize", "OneHot", "Squeeze", "Unsqueeze", "Split", "Trilu",
+            "Shape", "Size", "Concat", "Flatten", "MaxPool", "Upsample", "GatherND", "DepthToSpace"}
 
 
-def _sweep_worker(args):
-    """One slice of the thorough sweep in a forked worker: returns plain data, never raises."""
-    seed, idx, keys = args
+class _Batch:
+    """model requests collected and sent to the driver in batches"""
+
+    def __init__(self, ck, stats):
+        self.ck, self.stats, self.reqs, self.pending = ck, stats, [], []
+
+    def add(self, op, call, sp):
+        try:
+            req = L.model_request(op, call, sp)
+        except Exception as e:  # noqa: BLE001
+            self.stats["not_observable"] += 1
+            brk(self.ck, "correspondence", "constructor call not observable (model request)", f"{type(e).__name__}: {e}"[:300])
+            return
+        if req is not None:
+            self.reqs.append(req)
+            self.pending.append((op, call, sp))
+        if len(self.reqs) >= 3000:
+            self.flush()
+
+    def flush(self):
+        if self.reqs:
+            for (op_, call, sp), ans in zip(self.pending, self.ck.driver().ask_many("C05", self.reqs)):
+                correspond_case(self.ck, op_, call, sp, ans, self.stats)
+            self.reqs, self.pending = [], []
+
+
+def phase_histories(ck, rng, by_key, items, stats, pstats):
+    """sequences of calls of one operator in one process that differ in one facet"""
+    known = _known_keys()
+    batch = _Batch(ck, stats)
+    for op_key, facet in items:
+        op = by_key[op_key]
+        try:
+            hist = L.gen_history(rng, op, facet)
+            if hist is None:
+                pstats["not_applicable"] += 1
+                continue
+            for rev in (False, True):
+                h = hist if not rev else {"vars": hist["vars"], "calls": hist["calls"][::-1], "facets": hist["facets"][::-1]}
+                pstats["histories"] += 1
+                for f in h["facets"]:
+                    if f != "base":
+                        pstats["facet:" + f] += 1
+                for i, key, what, info, call, sp in judge_history(op, h, known):
+                    pstats["calls"] += 1
+                    ck.count(("history", op.key, info["class"], i, tuple(h["facets"])))
+                    if key is not None:
+                        if key in known:
+                            ck.failure(key, what, {"op_key": op.key, "history": h})
+                        elif not any(f["key"] == key for f in ck.failures):
+                            hs = {"vars": h["vars"], "calls": h["calls"][: i + 1], "facets": h["facets"][: i + 1]}
+                            if confirm({"op_key": op.key, "history": hs}, key, "history"):
+                                ck.failure(key, what, {"op_key": op.key, "history": shrink_history(op, hs, key)})
+                            else:
+                                brk(ck, "oracle", f"failure seen only inside this process: {key}", what[:600])
+                    batch.add(op, call, sp)
+        except Exception as e:  # noqa: BLE001
+            stats["case_errors"] += 1
+            brk(ck, "harness", "a call history could not be run", f"e.g. {op.key}: {type(e).__name__}: {e}"[:300])
+    batch.flush()
+
+
+def phase_flows(ck, rng, by_key, n, stats, pstats):
+    """one Var (constant / argument / earlier result) through different operators"""
+    known = _known_keys()
+    mods = [m for m, _, _ in L.MODULES]
+    weights = [(m, 3 if ".ml." not in m else 1) for m in mods]
+    batch = _Batch(ck, stats)
+    for _ in range(n):
+        try:
+            flow = L.gen_flow(rng, L._pick(rng, weights))
+            if flow is None:
+                pstats["not_generated"] += 1
+                continue
+            pstats["flows"] += 1
+            pstats["kind:" + flow["kind"]] += 1
+            _trace({"flow": flow})
+            if flow["calls"][0].get("vp") == "onnxruntime":
+                got = L.isolated(lambda: judge_flow(by_key, flow, known))
+                if got is None or got[0] != "ok":
+                    pstats["onnxruntime_child_died" if got is None else "onnxruntime_child_error"] += 1
+                    continue
+                judged = got[1]
+            else:
+                judged = judge_flow(by_key, flow, known)
+            for i, op, key, what, info, call, sp in judged:
+                pstats["calls"] += 1
+                pstats[info["class"]] += 1
+                ck.count(("flow", op.key, info["class"], i, flow["kind"]))
+                if key is not None:
+                    if key in known:
+                        ck.failure(key, what, {"op_key": op.key, "call": call})
+                    elif not any(f["key"] == key for f in ck.failures):
+                        register_flow(ck, flow, i, op, key, what, call)
+                batch.add(op, call, sp)
+        except Exception as e:  # noqa: BLE001
+            stats["case_errors"] += 1
+            brk(ck, "harness", "a flow could not be run", f"{type(e).__name__}: {e}"[:300])
+    batch.flush()
+
+
+def phase_constfed(ck, rng, by_key, keys, stats, pstats, per_op):
+    """every operand a known constant, value propagation ON (library default / reference / onnxruntime)"""
+    known = _known_keys()
+    batch = _Batch(ck, stats)
+    for op_key in keys:
+        op = by_key[op_key]
+        try:
+            call = L.gen_call(rng, op, force="constfed")
+            if "skip" in call:
+                continue
+            _trace({"op_key": op.key, "call": call})
+            if call.get("vp") == "onnxruntime":
+                if L.oracle_run(op, call)["reject"]:
+                    call["vp"] = "reference"  # onnxruntime is only handed nodes ONNX accepts ...
+            if call.get("vp") == "onnxruntime":
+                got = L.isolated(lambda: (lambda sp_: (sp_, judge(op, call, sp_)))(L.run_spox(op, call)))  # ... in a child
+                if got is None or got[0] != "ok":
+                    pstats["onnxruntime_child_died" if got is None else "onnxruntime_child_error"] += 1
+                    continue
+                sp, (key, what, info) = got[1]
+            else:
+                sp = L.run_spox(op, call)
+                key, what, info = judge(op, call, sp)
+            pstats[call["family"] + ":" + call.get("vp", "none")] += 1
+            pstats[info["class"]] += 1
+            per_op[op.key]["vp:" + info["class"]] += 1
+            ck.count(("constfed", op.key, info["class"], call.get("vp")))
+            if key is not None:
+                if key in known:
+                    ck.failure(key, what, {"op_key": op.key, "call": call})
+                elif not any(f["key"] == key for f in ck.failures):
+                    register(ck, op, key, what, call, [])
+            batch.add(op, call, sp)
+        except Exception as e:  # noqa: BLE001
+            stats["case_errors"] += 1
+            brk(ck, "harness", "a constant-fed call could not be run", f"e.g. {op.key}: {type(e).__name__}: {e}"[:300])
+    batch.flush()
+
+
+def _task_worker(args):
+    """One task in a forked worker: returns plain data, never raises."""
+    seed, tier, phase, idx, payload = args
     try:
-        ck = core.Check("C05", "thorough", seed)
+        ck = core.Check("C05", tier, seed)
         by_key = {o.key: o for o in L.load_vocabulary()}
-        work = [by_key[k] for k in keys]
-        rng = random.Random(f"C05-{seed}-{idx}")
-        stats, families = collections.Counter(), collections.Counter()
+        rng = random.Random(f"C05-{seed}-{phase}-{idx}")
+        stats, families, pstats = collections.Counter(), collections.Counter(), collections.Counter()
         per_op = collections.defaultdict(collections.Counter)
-        sent = sweep(ck, work, rng, stats, per_op, families)
+        if phase == "histories":
+            phase_histories(ck, rng, by_key, payload, stats, pstats)
+        elif phase == "flows":
+            phase_flows(ck, rng, by_key, payload, stats, pstats)
+        elif phase == "constfed":
+            phase_constfed(ck, rng, by_key, payload, stats, pstats, per_op)
+        else:
+            pstats["sent"] = sweep(ck, [by_key[k] for k in payload], rng, stats, per_op, families)
         if ck._driver:
             ck._driver.close()
-        return {"idx": idx, "sent": sent, "stats": dict(stats), "families": dict(families),
+        return {"stats": dict(stats), "families": dict(families), "phase_stats": dict(pstats),
                 "per_op": {k: dict(v) for k, v in per_op.items()}, "failures": ck.failures,
                 "known": ck.known_hits, "broken": ck.broken_items, "evaluations": ck.evaluations,
-                "distinct": list(ck._distinct), "suppressed": _suppressed[0]}
+                "distinct": list(ck._distinct), "suppressed": _suppressed[0], "samples": ck.samples}
     except BaseException as e:  # noqa: BLE001
-        return {"idx": idx, "error": f"{type(e).__name__}: {e}"[:300]}
+        return {"error": f"{type(e).__name__}: {e}"[:300]}
 
 
-def parallel_sweep(ck, work, stats, per_op, families):
-    import multiprocessing as mp
+def run_tasks(ck, tasks):
+    """Run the tasks in forked children, at most one per CPU, collecting pickled results over pipes.
+    A child that dies (native crash in a backend) or hangs is reported per task, never fatal."""
     import os
+    import pickle
+    import select
+    import signal
+    import time
 
     ck.driver()  # build the model executable once, before forking
-    slices = [[o.key for o in work[i::N_SLICES]] for i in range(N_SLICES)]
-    nproc = max(1, min(16, os.cpu_count() or 1, N_SLICES))
-    sent = 0
-    try:
-        with mp.get_context("fork").Pool(nproc) as pool:
-            results = pool.map(_sweep_worker, [(ck.seed, i, sl) for i, sl in enumerate(slices)], chunksize=1)
-    except Exception as e:  # noqa: BLE001
-        brk(ck, "harness", "worker pool failed; sweep run in-process", f"{type(e).__name__}: {e}"[:300])
-        return sweep(ck, work, ck.rng, stats, per_op, families)
-    for r in sorted(results, key=lambda r: r["idx"]):
-        if "error" in r:
-            brk(ck, "harness", "a sweep worker failed", f"slice {r['idx']}: {r['error']}")
-            continue
-        sent += r["sent"]
-        stats.update(r["stats"])
-        families.update(r["families"])
-        for k, v in r["per_op"].items():
-            per_op[k].update(v)
-        for f in r["failures"]:
-            ck.failure(f["key"], f["what"], f["case"])
-        for h in r["known"]:
-            ck.failure(h["key"], h["what"], h["case"])
-        for b in r["broken"]:
-            brk(ck, b["kind"], b["name"], b["detail"])
-        ck.evaluations += r["evaluations"]
-        ck._distinct.update(tuple(x) if isinstance(x, list) else x for x in r["distinct"])
-        _suppressed[0] += r["suppressed"]
-    return sent
+    args = [(ck.seed, ck.tier, ph, i, payload) for ph, i, payload in tasks]
+    nproc = max(1, min(16, os.cpu_count() or 1, len(args)))
+    limit = ck.pick(600, 3000)  # seconds per task
+    results = [None] * len(args)
+    pending = list(enumerate(args))
+    running = {}  # read fd -> [idx, pid, chunks, t0]
+    while pending or running:
+        while pending and len(running) < nproc:
+            idx, a = pending.pop(0)
+            r, w = os.pipe()
+            pid = os.fork()
+            if pid == 0:
+                code = 0
+                try:
+                    os.close(r)
+                    for fd in list(running):
+                        os.close(fd)
+                    os.environ["C05_TRACE"] = str(core.WORK / f"c05-trace-{a[2]}-{a[3]}.json")
+                    data = pickle.dumps(_task_worker(a))
+                    with os.fdopen(w, "wb") as f:
+                        f.write(data)
+                except BaseException:  # noqa: BLE001
+                    code = 3
+                finally:
+                    os._exit(code)
+            os.close(w)
+            running[r] = [idx, pid, [], time.time()]
+        ready, _, _ = select.select(list(running), [], [], 2.0)
+        for fd in ready:
+            blob = os.read(fd, 1 << 20)
+            if blob:
+                running[fd][2].append(blob)
+                continue
+            idx, pid, chunks, _t = running.pop(fd)
+            os.close(fd)
+            _, status = os.waitpid(pid, 0)
+            try:
+                results[idx] = pickle.loads(b"".join(chunks)) if chunks and status == 0 else {"died": status}
+            except Exception as e:  # noqa: BLE001
+                results[idx] = {"error": f"unreadable result: {type(e).__name__}"}
+        for fd, (idx, pid, chunks, t0) in list(running.items()):
+            if time.time() - t0 > limit:
+                try:
+                    os.kill(pid, signal.SIGKILL)
+                except OSError:
+                    pass
+    return results
 
 
-# ----------------------------------------------------------------------------------- run
 def _budget(ck, op):
     if op.name in L.SUBGRAPH_OPS:
         return 0
     if op.shared_with:
-        return ck.pick(3, 40)
-    return ck.pick(40, 1000)
+        return ck.pick(5, 40)
+    return ck.pick(70, 1000)
 
 
 def run(ck: core.Check):
+    # tie G: classes that override infer_output_types / propagate_values, regenerated from the source
+    try:
+        from translator import c05_overrides
+
+        gen = c05_overrides.generate()
+        if {tuple(k) for k in gen["inference"]} != set(L.SUPPLEMENTED):
+            brk(ck, "generated", "inference overrides differ from the oracle's SUPPLEMENTED table",
+                f"source: {sorted(set(map(tuple, gen['inference'])) ^ set(L.SUPPLEMENTED))}"[:600])
+        if {k[1] for k in gen["propagation"]} != {"Constant"}:
+            brk(ck, "generated", "propagate_values overrides differ from {Constant}", str(gen["propagation"])[:400])
+        ck.cov["overrides_in_source"] = {k: [list(x) for x in v] for k, v in gen.items() if k != "rows"}
+    except Exception as e:  # noqa: BLE001
+        brk(ck, "generated", "override table could not be extracted", f"{type(e).__name__}: {e}"[:300])
     res = ck.lean(["SpoxModel.Props.C05"], audit="SpoxModel.Audit.C05")
     if ck.thorough:
         ck.leanchecker(["SpoxModel.Props.C05"])
@@ -659,185 +846,69 @@ def run(ck: core.Check):
         if k is not None:
             ck.failure(k, what, case)
 
-    # 1a. call histories (first: the process is still fresh): sequences of calls in one process that differ in one facet
-    known = _known_keys()
+    # 1. the four families of generated cases, as independent tasks over a forked worker pool
+    #    (fixed numbers of slices: the cases of a seed do not depend on the number of CPUs)
     hwork = []
     for op in ops:
         if op.shared_with or op.name in L.SUBGRAPH_OPS:
             continue
         multi = L._variadic_output(op) or op.name in L.BODY_OPS
-        for k in range(ck.pick(25, 250) if multi else ck.pick(2, 20)):
-            hwork.append((op, "out_count" if multi and k % 2 == 0 else None))
-    rng.shuffle(hwork)
-    hstats = collections.Counter()
-    reqs, pending = [], []
-    for op, facet in hwork:
-        try:
-            hist = L.gen_history(rng, op, facet)
-            if hist is None:
-                hstats["not_applicable"] += 1
-                continue
-            for rev in (False, True):
-                h = hist if not rev else {"vars": hist["vars"], "calls": hist["calls"][::-1], "facets": hist["facets"][::-1]}
-                hstats["histories"] += 1
-                for f in h["facets"]:
-                    if f != "base":
-                        hstats["facet:" + f] += 1
-                for i, key, what, info, call, sp in judge_history(op, h, known):
-                    hstats["calls"] += 1
-                    ck.count(("history", op.key, info["class"], i, tuple(h["facets"])))
-                    if key is not None:
-                        if key in known:
-                            ck.failure(key, what, {"op_key": op.key, "history": h})
-                        elif not any(f["key"] == key for f in ck.failures):
-                            hs = {"vars": h["vars"], "calls": h["calls"][: i + 1], "facets": h["facets"][: i + 1]}
-                            if confirm({"op_key": op.key, "history": hs}, key, "history"):
-                                ck.failure(key, what, {"op_key": op.key, "history": shrink_history(op, hs, key)})
-                            else:
-                                brk(ck, "oracle", f"failure seen only inside this process: {key}", what[:600])
-                    try:
-                        req = L.model_request(op, call, sp)
-                    except Exception as e:  # noqa: BLE001
-                        brk(ck, "correspondence", "constructor call not observable (model request)", f"{type(e).__name__}: {e}"[:300])
-                        continue
-                    if req is not None:
-                        reqs.append(req)
-                        pending.append((op, call, sp))
-        except Exception as e:  # noqa: BLE001
-            stats["case_errors"] += 1
-            brk(ck, "harness", "a call history could not be run", f"e.g. {op.key}: {type(e).__name__}: {e}"[:300])
-        if len(reqs) >= 3000:
-            for (op_, call, sp), ans in zip(pending, ck.driver().ask_many("C05", reqs)):
-                correspond_case(ck, op_, call, sp, ans, stats)
-            reqs, pending = [], []
-    if reqs:
-        for (op_, call, sp), ans in zip(pending, ck.driver().ask_many("C05", reqs)):
-            correspond_case(ck, op_, call, sp, ans, stats)
-    ck.log(f"{hstats['histories']} call histories, {hstats['calls']} calls")
-    ck.cov["histories"] = dict(hstats)
-
-    # 1b. cross-operator flows: one Var (constant / argument / earlier result) through different operators
-    fstats = collections.Counter()
-    mods = [m for m, _, _ in L.MODULES[:5]]
-    reqs, pending = [], []
-    for _ in range(ck.pick(700, 9000)):
-        try:
-            flow = L.gen_flow(rng, rng.choice(mods))
-            if flow is None:
-                fstats["not_generated"] += 1
-                continue
-            fstats["flows"] += 1
-            fstats["kind:" + flow["kind"]] += 1
-            _trace({"flow": flow})
-            if flow["calls"][0].get("vp") == "onnxruntime":
-                got = L.isolated(lambda: judge_flow(by_key, flow, known))
-                if got is None or got[0] != "ok":
-                    fstats["onnxruntime_child_died" if got is None else "onnxruntime_child_error"] += 1
-                    continue
-                judged = got[1]
-            else:
-                judged = judge_flow(by_key, flow, known)
-            for i, op, key, what, info, call, sp in judged:
-                fstats["calls"] += 1
-                fstats[info["class"]] += 1
-                ck.count(("flow", op.key, info["class"], i, flow["kind"]))
-                if key is not None:
-                    if key in known:
-                        ck.failure(key, what, {"op_key": op.key, "call": call})
-                    elif not any(f["key"] == key for f in ck.failures):
-                        register_flow(ck, flow, i, op, key, what, call)
-                try:
-                    req = L.model_request(op, call, sp)
-                except Exception as e:  # noqa: BLE001
-                    brk(ck, "correspondence", "constructor call not observable (model request)", f"{type(e).__name__}: {e}"[:300])
-                    continue
-                if req is not None:
-                    reqs.append(req)
-                    pending.append((op, call, sp))
-        except Exception as e:  # noqa: BLE001
-            stats["case_errors"] += 1
-            brk(ck, "harness", "a flow could not be run", f"{type(e).__name__}: {e}"[:300])
-        if len(reqs) >= 3000:
-            for (op_, call, sp), ans in zip(pending, ck.driver().ask_many("C05", reqs)):
-                correspond_case(ck, op_, call, sp, ans, stats)
-            reqs, pending = [], []
-    if reqs:
-        for (op_, call, sp), ans in zip(pending, ck.driver().ask_many("C05", reqs)):
-            correspond_case(ck, op_, call, sp, ans, stats)
-    ck.log(f"{fstats['flows']} cross-operator flows, {fstats['calls']} calls")
-    ck.cov["flows"] = dict(fstats)
-
-    # 1c. every operand a known constant, value propagation ON (library default / reference / onnxruntime)
-    DATA_DEP = {"NonZero", "Unique", "Compress", "Where", "Reshape", "Expand", "Tile", "Range", "ConstantOfShape",
-                "Slice", "TopK", "Gather", "Pad", "Resize", "OneHot", "Squeeze", "Unsqueeze", "Split", "Trilu",
-                "Shape", "Size", "Concat", "Flatten", "MaxPool", "Upsample", "GatherND", "DepthToSpace"}
+        for k in range(ck.pick(40, 250) if multi else ck.pick(4, 20)):
+            hwork.append((op.key, "out_count" if multi and k % 2 == 0 else None))
     cwork = []
     for op in ops:
         if op.shared_with or op.name in L.BODY_OPS:
             continue
-        cwork += [op] * (ck.pick(30, 300) if op.name in DATA_DEP else ck.pick(4, 50))
-    rng.shuffle(cwork)
-    cstats = collections.Counter()
-    reqs, pending = [], []
-
-    def flush():
-        if reqs:
-            for (op_, call, sp), ans in zip(pending, ck.driver().ask_many("C05", reqs)):
-                correspond_case(ck, op_, call, sp, ans, stats)
-            reqs.clear()
-            pending.clear()
-
-    for op in cwork:
-        try:
-            call = L.gen_call(rng, op, force="constfed")
-            if "skip" in call:
-                continue
-            _trace({"op_key": op.key, "call": call})
-            if call.get("vp") == "onnxruntime":
-                if L.oracle_run(op, call)["reject"]:
-                    call["vp"] = "reference"  # onnxruntime is only handed nodes ONNX accepts ...
-            if call.get("vp") == "onnxruntime":
-                got = L.isolated(lambda: (lambda sp_: (sp_, judge(op, call, sp_)))(L.run_spox(op, call)))  # ... in a child
-                if got is None or got[0] != "ok":
-                    cstats["onnxruntime_child_died" if got is None else "onnxruntime_child_error"] += 1
-                    continue
-                sp, (key, what, info) = got[1]
-            else:
-                sp = L.run_spox(op, call)
-                key, what, info = judge(op, call, sp)
-            cstats[call["family"] + ":" + call.get("vp", "none")] += 1
-            cstats[info["class"]] += 1
-            per_op[op.key]["vp:" + info["class"]] += 1
-            ck.count(("constfed", op.key, info["class"], call.get("vp")))
-            if key is not None:
-                if key in known:
-                    ck.failure(key, what, {"op_key": op.key, "call": call})
-                elif not any(f["key"] == key for f in ck.failures):
-                    register(ck, op, key, what, call, [])
-            req = L.model_request(op, call, sp)
-            if req is not None:
-                reqs.append(req)
-                pending.append((op, call, sp))
-        except Exception as e:  # noqa: BLE001
-            stats["case_errors"] += 1
-            brk(ck, "harness", "a constant-fed call could not be run", f"e.g. {op.key}: {type(e).__name__}: {e}"[:300])
-        if len(reqs) >= 3000:
-            flush()
-    flush()
-    ck.log(f"{len(cwork)} constant-fed calls with value propagation on")
-    ck.cov["constant_fed_value_prop_on"] = dict(cstats)
-
-    # 1. generated calls
+        cwork += [op.key] * (ck.pick(50, 300) if op.name in DATA_DEP else ck.pick(8, 50))
     work = []
     for op in ops:
-        for _ in range(_budget(ck, op)):
-            work.append(op)
-    rng.shuffle(work)  # a slice mixes operators; order is still a function of the seed
-    if not ck.thorough:
-        sent = sweep(ck, work, rng, stats, per_op, families)
-    else:
-        sent = parallel_sweep(ck, work, stats, per_op, families)
-    ck.log(f"{len(work)} calls generated, {sent} sent to the model")
+        work += [op.key] * _budget(ck, op)
+    for lst in (hwork, cwork, work):
+        rng.shuffle(lst)  # a slice mixes operators; order is still a function of the seed
+    nflows = ck.pick(1500, 9000)
+    nh, nf, nc, nw = ck.pick((6, 6, 8, 12), (8, 8, 16, 32))
+    tasks = [("histories", i, hwork[i::nh]) for i in range(nh)]
+    tasks += [("flows", i, nflows // nf + (1 if i < nflows % nf else 0)) for i in range(nf)]
+    tasks += [("constfed", i, cwork[i::nc]) for i in range(nc)]
+    tasks += [("sweep", i, work[i::nw]) for i in range(nw)]
+    results = run_tasks(ck, tasks)
+    phase_stats = {ph: collections.Counter() for ph in ("histories", "flows", "constfed", "sweep")}
+    died: list = []
+    for (phase, idx, _), r in zip(tasks, results):
+        if r is not None and "died" in r:
+            # a native crash / hang inside a backend took the worker down: the case that was running is
+            # in the task's trace file; no verdict can be drawn from it
+            died.append(f"{phase}[{idx}] status={r['died']}")
+            continue
+        if r is None or "error" in r:
+            brk(ck, "harness", "a worker task failed", f"{phase}[{idx}]: {(r or {}).get('error', 'no result')}")
+            continue
+        stats.update(r["stats"])
+        families.update(r["families"])
+        phase_stats[phase].update(r["phase_stats"])
+        for k, v in r["per_op"].items():
+            per_op[k].update(v)
+        for f in r["failures"]:
+            ck.failure(f["key"], f["what"], f["case"])
+        for h in r["known"]:
+            ck.failure(h["key"], h["what"], h["case"])
+        for b_ in r["broken"]:
+            brk(ck, b_["kind"], b_["name"], b_["detail"])
+        ck.evaluations += r["evaluations"]
+        ck._distinct.update(r["distinct"])
+        _suppressed[0] += r["suppressed"]
+        for smp in r["samples"]:
+            ck.sample(smp, limit=4)
+    hs, fs, cs = phase_stats["histories"], phase_stats["flows"], phase_stats["constfed"]
+    ck.log(f"{hs['histories']} call histories ({hs['calls']} calls), {fs['flows']} cross-operator flows ({fs['calls']} calls), "
+           f"{len(cwork)} constant-fed calls with value propagation on, {len(work)} sweep calls ({phase_stats['sweep']['sent']} sent to the model)")
+    if died:
+        ck.log(f"worker tasks lost to a native crash / hang (no verdict): {died}")
+        ck.notes.append(f"worker tasks lost to a native crash or hang in a backend: {died}")
+    ck.cov["worker_tasks_lost"] = died
+    ck.cov["histories"] = dict(hs)
+    ck.cov["flows"] = dict(fs)
+    ck.cov["constant_fed_value_prop_on"] = dict(cs)
 
     # 2. kind checks of Inputs(...)
     try:
@@ -860,7 +931,7 @@ def run(ck: core.Check):
     starved = sorted(k for k, c in per_op.items() if not any(x.startswith("acc") or x.startswith("mixed") for x in c) and not by_key[k].shared_with)
     never_rej = sum(1 for k, c in per_op.items() if not any(x.startswith("rej") for x in c) and not by_key[k].shared_with)
     ck.cov.update({
-        "operators": len({o.key for o in work}),
+        "operators": len(set(work)),
         "distinct_node_classes": len([o for o in ops if not o.shared_with]),
         "not_generated_operators": sorted(L.SUBGRAPH_OPS),
         "calls": len(work),
@@ -872,8 +943,8 @@ def run(ck: core.Check):
         "per_operator": {k: " ".join(f"{a}={n}" for a, n in sorted(v.items())) for k, v in sorted(per_op.items()) if not by_key[k].shared_with},
     })
     ck.exhaustive = False
-    ck.rule = ("seeded random constructor calls over every (module, operator) pair: 40 (quick) / 1000 (thorough) per distinct node "
-               "class, 3 / 40 per re-exported one; non-trivial = distinct (operator, accept/reject class, calling-form family, "
+    ck.rule = ("seeded random constructor calls over every (module, operator) pair: 70 (quick) / 1000 (thorough) per distinct node "
+               "class, 5 / 40 per re-exported one; non-trivial = distinct (operator, accept/reject class, calling-form family, "
                "#explicit attributes, argument kinds)")
     ck.assumptions += [
         "onnx.shape_inference.infer_shapes is invariant under injective renaming of value names and ignores graph inputs / initializers the node does not read (hypotheses InferOK of eager_agrees; observed by the oracle, which uses its own names and no extra inputs)",
